@@ -748,6 +748,21 @@ theorem wf_of_wf2 (d : List Repo) (h : WF2 d) : WF d := by
   refine ⟨hab a.shard0 (List.mem_cons_self ..), fun hb => ?_⟩
   exact hab b.shard0 hb (List.mem_cons_self ..)
 
+theorem inj_of_nodup_map {α β} (f : α → β) (l : List α) (h : (l.map f).Nodup) :
+    ∀ x ∈ l, ∀ y ∈ l, f x = f y → x = y := by
+  induction l with
+  | nil => intro x hx; simp at hx
+  | cons a t ih =>
+    rw [List.map_cons, List.nodup_cons] at h
+    intro x hx y hy hxy
+    rcases List.mem_cons.mp hx with hxa | hxt
+    · rcases List.mem_cons.mp hy with hya | hyt
+      · rw [hxa, hya]
+      · exact absurd (List.mem_map.mpr ⟨y, hyt, by rw [← hxy, hxa]⟩) h.1
+    · rcases List.mem_cons.mp hy with hya | hyt
+      · exact absurd (List.mem_map.mpr ⟨x, hxt, by rw [hxy, hya]⟩) h.1
+      · exact ih h.2 x hxt y hyt hxy
+
 /-! ### a second run -/
 
 /-- sources of the discovered repositories are pairwise different after normalisation (guaranteed by discovery) -/
